@@ -79,11 +79,14 @@ CHECKS = {
     'C13': dict(
         engine='E4',
         technique='exhaustive product: every non-mutator builtin found in FUNCTIONS x every argument tuple (arity 1-3) over a shape '
-                  'alphabet, direct call and through eval in three syntaxes and mutator-on-result pipelines; deep before/after snapshot',
+                  'alphabet, direct call and through eval in three syntaxes and mutator-on-result pipelines; deep before/after snapshot; every abort point (every budget, failing '
+                  'callbacks) inside callback-taking builtins',
         text='Every non-mutating builtin (the table is read at run time, so a new builtin is included) is applied to every argument '
              'tuple of arity 1-3 over 17 value shapes and 5 lambdas, directly and through eval as f(a,..), a.f(..), a | f(..), and in '
              'pipelines that mutate the result of container-building builtins; a deep snapshot (contents + identity structure) of '
-             'all arguments must be unchanged, and container builders must not return their argument. Complete within the product.',
+             'all arguments must be unchanged, and container builders must not return their argument. Calls that take a callback are also '
+             'interrupted at every operation (every budget N) and by callbacks failing at their 2nd / 3rd invocation: the arguments must '
+             'be unchanged then too. Complete within the product.',
         note='trusted: the snapshot function; the mutator list is the one in the property statement',
         design='4/C13'),
     'C03': dict(
@@ -190,13 +193,17 @@ CHECKS = {
         engine='E2+E3',
         technique='exhaustive sweep of EVERY budget 1..K+2 for every driver program and construct shape, K counted from outside by a '
                   'node-evaluation tracer; all eval-call sequences up to length 2/3 over a shared names mapping with budgets around K; all '
-                  'interleavings of two evaluating threads at host-callback granularity under a baton scheduler',
+                  'interleavings of two evaluating threads at host-callback granularity under a baton scheduler; every abort point of '
+                  '~100 effectful program templates replayed on the reference interpreter stopped at the same operation (prefix-of-effects '
+                  'oracle); every (outer budget, nested budget) pair for eval calls nested through a host callback',
         text='For every driver (all 13 node kinds; lambdas called directly, recursively, through map/filter/reduce/sorted, through '
              're-entrant and error-swallowing host callbacks, through ast_names; with and without a parse cache) and every construct '
              'shape, K is measured by the external tracer and every budget N in 1..K+2 is run: the charged counter must equal K, N > K '
              'must reproduce the unbounded run, N <= K must raise the ops-limit error at exactly the N-th node evaluation with the effect '
              'log equal to the unbounded effects before it. Every sequence of <= 2/3 eval calls over one names mapping is judged call by '
-             'call on its own K.',
+             'call on its own K. For every effectful statement template and every N <= K the host names mapping left behind by the aborted '
+             'run must be a state the reference interpreter passes through before its N-th operation. For every pair (M, N) a nested '
+             'eval call with budget N, made from a host callback of an outer call with budget M, must end as it does stand-alone.',
         note='trusted: wrapping every Op subclass eval from outside counts node evaluations; probe calls are the host-visible effects',
         design='4/C01'),
     'C07': dict(
@@ -215,12 +222,13 @@ CHECKS = {
         engine='E3',
         technique='explicit-state BFS over statement sequences about one name bound at every level, run as separate evals and as one '
                   'program; real eval vs the scope model of the reference interpreter + scope-stack / builtin-table invariants after '
-                  'every eval',
+                  'every eval; every abort point (every budget N <= K) of the last call of histories of <= 2 calls',
         text='Every sequence up to depth 2/3 (+1 over 14 statements) of 56 statements around the single name `len` - builtin key, host '
              'binding (absent / number / None), assignment target, lambda parameter, local of host-built multi-statement bodies - with '
              'direct, nested, dynamic-scope, recursive calls, calls through map/filter/reduce/sorted and through re-entrant and '
              'error-swallowing host callbacks, and raising bodies; values, errors and host names afterwards must match the scope model, '
-             'and after every eval the scope stack must be [builtins, host names] and the builtin table untouched.',
+             'and after every eval the scope stack must be [builtins, host names] and the builtin table untouched - also after a call '
+             'aborted by the ops limit at any of its operations, where the host names must moreover be a state the scope model passes through.',
         note='trusted: mc/model/refeval.py scope model; the VM state handed to the tracer exposes the scope stack',
         design='4/C10'),
 }
